@@ -244,6 +244,25 @@ theorem C15_multi_concat {α} (bs B : Nat) (hbs : 0 < bs) (hB : 0 < B) (z : α)
   · simp only [he, Bool.false_eq_true, if_false, List.flatMap_cons, List.flatMap_nil, List.append_nil]
     exact unpad_last bs B z _
 
+/-- Client boundaries are invisible in the example stream: two cohorts whose datasets concatenate to the
+same example sequence (clients split, merged, or empty clients inserted anywhere) give the same stream
+after removing the padded rows. -/
+theorem C15_multi_regroup {α} (bs B : Nat) (hbs : 0 < bs) (hB : 0 < B) (z : α)
+    (dsets dsets' : List (List α)) (h : dsets.flatten = dsets'.flatten) :
+    ∃ v v', multiBatch bs B z dsets = some v ∧ multiBatch bs B z dsets' = some v' ∧
+      unpad v = unpad v' := by
+  obtain ⟨v, hv, hu⟩ := C15_multi_concat bs B hbs hB z dsets
+  obtain ⟨v', hv', hu'⟩ := C15_multi_concat bs B hbs hB z dsets'
+  exact ⟨v, v', hv, hv', by rw [hu, hu', h]⟩
+
+/-- Conservation of examples: the number of real (unpadded) rows in the stream is the sum of the client
+sizes. -/
+theorem C15_multi_count {α} (bs B : Nat) (hbs : 0 < bs) (hB : 0 < B) (z : α)
+    (dsets : List (List α)) :
+    ∃ v, multiBatch bs B z dsets = some v ∧ (unpad v).length = (dsets.map List.length).sum := by
+  obtain ⟨v, hv, hu⟩ := C15_multi_concat bs B hbs hB z dsets
+  exact ⟨v, hv, by rw [hu, List.length_flatten]⟩
+
 /-- Shape of the stream: full batches of exactly `bs` real rows with the all-true mask, then at
 most one final batch holding the `r ≤ bs` remaining rows, padded with `z` rows to the bucket size
 `pickFinal r bs B ≥ r`, its mask a `true`-prefix of length `r`; and there is no batch at all iff
